@@ -37,6 +37,7 @@ class BitDep:
         self.const_defs = {}  # key -> set of constant values assigned (keys that only ever receive constants)
         self.nonconst = set()
         self.cdep_acc = {}
+        self.site_bits = {}   # key -> {site: (per-bit dependency sets without control dependence, control dependence)}
         self.succ = [list(s) for s in body.succ]
         if prune:
             for bi, t in body.terms():
@@ -56,6 +57,7 @@ class BitDep:
         self.reach = seen
         self.ctrl = self._control_deps()
         self.ret = None
+        self.cur_site = None
 
     def _control_deps(self):
         n = self.b.nblocks
@@ -238,10 +240,12 @@ class BitDep:
                     t = b.blocks[s]["term"]
                     if t["k"] == "switch":
                         cdep |= self.allbits(self.operand(t["discr"]))
-                for st in blk["stmts"]:
+                for k_, st in enumerate(blk["stmts"]):
                     if st["k"] != "assign":
                         continue
+                    self.cur_site = (bi, k_)
                     changed |= self.assign(st["p"], st["rv"], cdep)
+                self.cur_site = None
                 t = blk["term"]
                 if t["k"] == "call":
                     changed |= self.call(t, cdep)
@@ -251,17 +255,22 @@ class BitDep:
         path = tuple(el[2] if (el != "*" and el[0] == "f") else ("*" if el == "*" else str(el[0])) for el in pj.get("p", []))
         return (pj["l"], path)
 
-    def join(self, key, bits, cdep, identity_ok=True):
+    def join(self, key, bits, cdep, identity_ok=True, site=None):
+        """site: identity of the assigning statement.  A bit position at which every assignment of the place stores the same
+        thing (`let t = if c { x | 8 } else { x }`: all bits but bit 3) does not depend on which assignment ran, so the
+        control dependence is added only where the assignments differ."""
         old = self.env.get(key)
         w = len(bits)
         if old is None:
             old = [E] * w
         old = (old + [E] * w)[:w]
         new = []
+        reals = []
         for i in range(w):
             v = bits[i]
             if identity_ok and v == frozenset([("self", i)]):
                 new.append(old[i])          # bit unchanged by this assignment
+                reals.append(None)
                 continue
             real = set()
             for a in v:
@@ -269,11 +278,29 @@ class BitDep:
                     real |= old[a[1]] if a[1] < len(old) else set()
                 else:
                     real.add(a)
-            new.append(old[i] | frozenset(real) | cdep)
+            reals.append(frozenset(real))
+            new.append(old[i] | frozenset(real))
+        rec_changed = False
+        if site is not None:
+            recs = self.site_bits.setdefault(key, {})
+            if recs.get(site) != (tuple(reals), cdep):
+                recs[site] = (tuple(reals), cdep)
+                rec_changed = True
+            for i in range(w):
+                if reals[i] is None:
+                    continue
+                differ = any((len(r[0]) > i and r[0][i] is not None and r[0][i] != reals[i]) for s_, r in recs.items() if s_ != site)
+                if differ:
+                    for s_, r in recs.items():
+                        new[i] = new[i] | r[1]
+        else:
+            for i in range(w):
+                if reals[i] is not None:
+                    new[i] = new[i] | cdep
         if new != old or self.env.get(key) is None:
             self.env[key] = new
-            return new != old
-        return False
+            return new != old or rec_changed
+        return rec_changed
 
     def assign(self, pj, rv, cdep):
         key = self.key_of(pj)
@@ -336,7 +363,7 @@ class BitDep:
         if bits is None:
             return False
         bits = (bits + [E] * w)[:w]
-        return self.join(key, bits, cdep)
+        return self.join(key, bits, cdep, site=self.cur_site)
 
     def call(self, t, cdep):
         args = []
